@@ -7,6 +7,7 @@ counting over `allBytes n`; all probability statements are exact counting statem
 Only statements and their final proofs live here; lemmas are in Verif.Proofs.Random.
 -/
 import Verif.Proofs.Random
+import Verif.Proofs.RandomUniform
 namespace Verif.Properties.C47
 open Verif.Model.Random Verif.Proofs.Random
 
@@ -118,6 +119,25 @@ theorem retry (ty : Ty) (m : Nat) (hm : 0 < m) (ht : InType ty m) (bs rest : Byt
   unfold revertibleRandom
   simp only [params_eq ty (m - 1) hmax, if_neg (Nat.ne_of_gt hm), if_neg (Nat.not_lt.mpr hbs)]
   exact sample_reject _ _ _ bs rest hl (by omega)
+
+/-- **Exact uniformity, all draws.**  For every modulo `0 < m` of the type and every source length
+    `L`: among the `256^L` equally likely sources of length `L`, any two values `v, w < m` are returned
+    by exactly the same number of sources (the remaining sources end with the host's source
+    exhausted).  So with uniformly random source bytes every value below `m` is equally likely,
+    whatever the number of rejected draws — no modulo bias. -/
+theorem uniform_all_draws (ty : Ty) (m : Nat) (hm : 0 < m) (ht : InType ty m) (L v w : Nat)
+    (hv : v < m) (hw : w < m) :
+    (allBytes L).countP (fun src => Out.value (revertibleRandom ty (some m) src) == some v)
+      = (allBytes L).countP (fun src => Out.value (revertibleRandom ty (some m) src) == some w) := by
+  have hmax : m - 1 < 2 ^ (8 * ty.byteSize) := Nat.lt_of_le_of_lt (Nat.sub_le _ _) ht
+  have hbs := byteSize_le ty (m - 1) hmax
+  have hrr : ∀ src, revertibleRandom ty (some m) src
+      = rr ((bitLen (m - 1) + 7) >>> 3) (2 ^ bitLen (m - 1) - 1) (m - 1) src := by
+    intro src
+    unfold revertibleRandom rr
+    simp only [params_eq ty (m - 1) hmax, if_neg (Nat.ne_of_gt hm), if_neg (Nat.not_lt.mpr hbs)]
+  simp only [hrr]
+  exact hits_eq _ _ _ (byteSize_bound _) (lt_two_pow_bitLen _) v w (by omega) (by omega) L
 
 /-! Non-vacuity and concrete instances (the mask removes the high bits; 3 is rejected for modulo 3). -/
 example : revertibleRandom .u8 (some 3) [0xfe, 0x07, 0x01] = .ok 2 1 1 := by decide
